@@ -63,6 +63,8 @@ impl RecoveryThread {
         let thread = spawn(move || loop {
             for panicking_thread in &rx {
                 #[cfg(humphrey_verif)]
+                crate::verif::point("Rec_Chan", Arc::as_ptr(&task_rx) as usize as i64, 0);
+                #[cfg(humphrey_verif)]
                 crate::verif::point("Rec_Wake", panicking_thread as i64, 0);
                 let mut threads = threads.lock().unwrap();
                 #[cfg(humphrey_verif)]
